@@ -315,3 +315,35 @@ Proof.
   rewrite P in Hs. destruct (Qeq_dec s 0) as [|NZ]; auto. exfalso.
   destruct (Qlt_le_dec 0 s) as [A|A]; [nra|]. assert (s < 0) by (destruct (Qlt_le_dec s 0); auto; exfalso; apply NZ; lra). nra.
 Qed.
+
+(* StandarScaler(with_mean=False, with_std=True): only the division *)
+Theorem standard_scaler_std_only_var_1 v s :
+  v <> [] -> s * s == pvar v -> ~ s == 0 -> pvar (map (fun x => x / s) v) == 1.
+Proof.
+  intros Hne Hs Hz. pose proof (qn_nonzero v Hne) as Hn.
+  assert (M : mean (map (fun x => x / s) v) == mean v / s).
+  { unfold mean. rewrite map_length, qsum_map_div by exact Hz. field. split; assumption. }
+  unfold pvar at 1. rewrite map_length, map_map.
+  assert (E : qsum (map (fun x => (x / s - mean (map (fun x0 => x0 / s) v)) * (x / s - mean (map (fun x0 => x0 / s) v))) v) ==
+              qsum (map (fun x => ((x - mean v) / s - 0) * ((x - mean v) / s - 0)) v)).
+  { apply qsum_map_ext'. intros x. rewrite M. field. exact Hz. }
+  rewrite E, qsum_map_sqdev_div by exact Hz.
+  rewrite Hs. unfold pvar. field. split; [exact Hn|].
+  intros Z. apply Hz.
+  assert (P : pvar v == 0) by (unfold pvar; rewrite Z; field; exact Hn).
+  rewrite P in Hs. destruct (Qeq_dec s 0) as [|NZ]; auto. exfalso.
+  destruct (Qlt_le_dec 0 s) as [A|A]; [nra|]. assert (s < 0) by (destruct (Qlt_le_dec s 0); auto; exfalso; apply NZ; lra). nra.
+Qed.
+
+(* StandarScaler(with_mean=True, with_std=False): only the shift *)
+Theorem standard_scaler_mean_only v :
+  v <> [] -> mean (map (fun x => x - mean v) v) == 0.
+Proof.
+  intros Hne. assert (H : ~ 1 == 0) by (intros X; discriminate X).
+  pose proof (standard_scaler_mean_0 v 1 Hne H) as M.
+  rewrite <- M. unfold mean. rewrite !map_length.
+  assert (E : qsum (map (fun x => x - qsum v / inject_Z (Z.of_nat (length v))) v) ==
+              qsum (map (fun x => (x - qsum v / inject_Z (Z.of_nat (length v))) / 1) v)).
+  { apply qsum_map_ext'. intros x. field. apply (qn_nonzero v Hne). }
+  rewrite E. reflexivity.
+Qed.
